@@ -375,7 +375,8 @@ impl Directive {
             Directive::IfNDef | Directive::IfDef => {
                 if let DirectiveOps::OpList(values) = &opts {
                     if let Some(Operand::E(Expr::Ident(name))) = values.first() {
-                        if context.common_context.defines.borrow().contains_key(name) {
+                        // a name is defined whatever made it: #define, .equ, .set, a label, .def
+                        if context.common_context.exist(name) {
                             if self == &Directive::IfNDef {
                                 next_item = NextItem::EndIf;
                             };
